@@ -47,6 +47,15 @@ fn scenarios(which: Which, u: &Universe, arch: &Arch, n: usize) -> Vec<Scenario>
         v.push(mk(Some(arch.source.clone()), true, vec![]));
     }
     if which == Which::C02 {
+        // an existing, longer output that is overwritten (--force-create) while seeds supply some or
+        // all of the chunks
+        let mut longer = arch.source.clone();
+        longer.extend_from_slice(b"a stale tail that must go");
+        for sd in seqs(letters.len(), 1) {
+            v.push(mk(Some(longer.clone()), false, vec![u.concat(&letters, &sd)]));
+        }
+        v.push(mk(Some(longer.clone()), false, vec![arch.source.clone()]));
+        v.push(mk(Some(longer), false, vec![arch.source.clone(), arch.source.clone()]));
         // the output itself as one more seed, combined with a seed file: every prior of <= 2 letters
         // x every seed of <= 2 letters (the order in which the two kinds of seed are consumed matters)
         for p in seqs(letters.len(), 2) {
